@@ -8,7 +8,7 @@ import e1
 
 VERIF = e1.VERIF
 REPO = e1.REPO
-EVID = os.path.join(VERIF, 'evidence')
+EVID = os.environ.get('VERIF_EVIDENCE_DIR') or os.path.join(VERIF, 'evidence')   # (seed experiments redirect it so that committed evidence is never overwritten by runs on mutated trees)
 REPLAYS = os.path.join(VERIF, 'replays')
 KNOWN = os.path.join(VERIF, 'known_findings.json')
 
